@@ -344,7 +344,42 @@ func runC10(c *core.Ctx) {
 				}
 			}
 		}
-		c.Sample(map[string]any{"part": "l3-long-lines", "sizes": sizes, "kinds": kinds, "positions": "first,middle,last"})
+		// the same over-long lines after every kind of line (round 12, K10: the scanner's error was dropped when the
+		// last significant line before it was a note): the line(s) standing directly before the long line vary
+		before := []struct{ what, text string }{
+			{"note", "a:\n  x: 1\n  # k: v\n"}, {"bare note", "a:\n  #\n"}, {"note, blank", "a:\n  x: 1\n  # k: v\n\n"},
+			{"note, comment", "a:\n  # k: v\n# c\n"}, {"comment", "a:\n  x: 1\n# c\n"}, {"blank", "a:\n  x: 1\n\n"},
+			{"heading", "a:\n  x: 1\nc:\n"}, {"note above the first heading", "  # k: v\n"}, {"malformed-free quoted entry", "a:\n  \"x y\": 1\n"},
+		}
+		for _, size := range sizes {
+			for _, kind := range kinds {
+				for _, bf := range before {
+					for _, pos := range []string{"middle", "last"} {
+						long := c10LongLine(kind, size)
+						text := bf.text + long
+						if pos == "middle" {
+							text += "\nb:\n  y: 2\n"
+						}
+						rd := &countingReader{data: []byte(text), limit: -1}
+						evs, ret, pnc := parseWith(rd)
+						c.Eval(1)
+						c.Count("long_line_cases_after_other_lines", 1)
+						c.Nontrivial("long-after", kind, bf.what, pos, fmt.Sprint(size))
+						rep := map[string]any{"line_kind": kind, "line_bytes": size, "after": bf.what, "position": pos, "returned": fmt.Sprint(ret), "records": len(evs), "delivered": rd.delivered, "total": len(text)}
+						if pnc != "" {
+							c.Violation("ParseStreamCallback|panic", clip(pnc, 300), rep)
+							continue
+						}
+						if ret == nil {
+							if wantRecs := c10CountHeadings(text); !rd.eof || len(evs) != wantRecs {
+								c.Violation("ParseStreamCallback|long-line-truncates-silently", fmt.Sprintf("%s line of %d bytes after a %s (%s): returned nil with %d of %d records, read %d of %d bytes", kind, size, bf.what, pos, len(evs), wantRecs, rd.delivered, len(text)), rep)
+							}
+						}
+					}
+				}
+			}
+		}
+		c.Sample(map[string]any{"part": "l3-long-lines", "sizes": sizes, "kinds": kinds, "positions": "first,middle,last", "after": "entry; and (middle,last) after note, bare note, note+blank, note+comment, comment, blank, heading, note above the first heading, quoted entry"})
 	})
 
 	c.RunPart("l3-large", 20*time.Minute, func(c *core.Ctx) {
